@@ -74,8 +74,29 @@ func VerifC14Restart(h *verifh.H) {
 		}
 	}
 	nops := h.Param("ops", 2)
+	recreatedA := false
 	for k := 0; k < nops; k++ {
-		switch h.Choice("op", 6) {
+		switch h.Choice("op", h.Param("opKinds", 8)) {
+		case 6: // the dataset known as a is renamed
+			if cur == "" {
+				h.Assume(false)
+			}
+			nn := "r" + itoa(k)
+			_, err := hs.hub.Dsm.UpdateDataset(cur, &UpdateDatasetConfig{ID: nn})
+			h.Assert(err == nil, "rename accepted")
+			g.renameDS(cur, nn)
+			cur = nn
+		case 7: // a dataset is created under the name a after that name was renamed or deleted away
+			if cur == "a" || recreatedA {
+				h.Assume(false)
+			}
+			nd, err := hs.hub.Dsm.CreateDataset("a", nil)
+			h.Assert(err == nil, "create under a freed name accepted")
+			g.createDS("a")
+			recreatedA = true
+			if err == nil && nd.InternalID > maxDsID {
+				maxDsID = nd.InternalID
+			}
 		case 5: // the public namespaces of dataset b are changed through its meta-entity in core.Dataset
 			nsi, err := hs.hub.Store.NamespaceManager.GetDatasetNamespaceInfo()
 			h.Assert(err == nil, "namespace info")
@@ -162,7 +183,9 @@ func VerifC14Restart(h *verifh.H) {
 		h.Assert(err == nil && le != nil && len(le.Properties) == 1, "an entity written to the fresh dataset is found by a lookup scoped to it")
 	}
 	if cur == "" {
-		h.Assert(hs.hub.Dsm.GetDataset("a") == nil, "a deleted dataset stays deleted after the restart")
+		if !recreatedA {
+			h.Assert(hs.hub.Dsm.GetDataset("a") == nil, "a deleted dataset stays deleted after the restart")
+		}
 		hs.vCheckUnscoped(h, "after restart")
 	}
 	h.Observe("ops", nops)
